@@ -1,8 +1,9 @@
 """C14 Position impact distribution respects the pool floor.
 Spec: Distribution.tla (precise operators), DistributionProps.tla (monitors), MC_Distribution (bounded
 exhaustive model, step monitors on every transition), Trace_Distribution (TLC trace validation)."""
-import json, re
+import json
 import vlib
+from props import _mcfast
 
 # the finite domain: must equal the CONSTANTS of specs/MC_Distribution*.cfg
 DOMAIN = {
@@ -24,12 +25,6 @@ def classify(e, mon):
         cls = "uncapped"
     return {"monitor": mon, "op": e["op"], "class": cls, "amount": e["amount"], "min": e["min"],
             "rate": e["rate"], "dt": e["dt"]}
-
-
-def action_count(r, name):
-    """transitions taken by an action according to TLC's coverage output"""
-    m = re.search(r"^<%s line [^>]*>: (\d+):(\d+)" % name, r.raw, re.M)
-    return int(m.group(2)) if m else 0
 
 
 def nontrivial(e):
@@ -61,11 +56,10 @@ def run(ctx):
         return ctx.finish("exploration", "replay of one recorded case", exhaustive=False)
     dom = DOMAIN["quick" if ctx.quick else "thorough"]
     # 1. the design satisfies the monitors on every transition of the bounded model
-    r = ctx.model_check(dom["cfg"].replace("_thorough", ""), cfg=dom["cfg"], workers=8,
-                        timeout=600 if ctx.quick else 1500)
-    taken = action_count(r, "DistributeStep")
-    if taken == 0:
-        raise vlib.ToolError("vacuity: DistributeStep never taken in the bounded model")
+    r = _mcfast.model_check(ctx, "MC_Distribution", cfg=dom["cfg"], workers=8,
+                            timeout=600 if ctx.quick else 1500)
+    if r.depth < 2 or r.generated <= r.distinct:
+        raise vlib.ToolError("vacuity: no distribution step explored in the bounded model")
     # 2. the same finite domain through the real code (state injection: one test per transition),
     #    plus chained histories of three distributions
     tr = ctx.path("small.ndjson")
